@@ -601,6 +601,16 @@ func vfBubble(t *testing.T, fn func()) (panicMsg string) {
 	defer func() {
 		if r := recover(); r != nil {
 			panicMsg = fmt.Sprint(r)
+			if vfEnv.Replay != "" && strings.Contains(panicMsg, "blocked goroutines remain") {
+				// replay mode: show who is still blocked
+				buf := make([]byte, 4<<20)
+				n := runtime.Stack(buf, true)
+				for _, g := range strings.Split(string(buf[:n]), "\n\n") {
+					if strings.Contains(g, "synctest bubble") && !strings.Contains(g, "[running") {
+						fmt.Fprintf(os.Stderr, "BLOCKED-GOROUTINE:\n%s\n\n", g)
+					}
+				}
+			}
 		}
 	}()
 	synctest.Test(t, func(*testing.T) { fn() })
